@@ -150,6 +150,29 @@ class TreeBuilder(ET.TreeBuilder):
         re.VERBOSE,
     )
 
+    def __init__(self, *args, **kwargs):
+        super().__init__(*args, **kwargs)
+        # Tags of the elements currently open.  The C implementation of
+        # ``ET.TreeBuilder`` neither compares end tags with the element they
+        # close nor complains about elements left open, so we keep track here.
+        self._open_tags: list = []
+
+    def start(self, tag, attrs):
+        self._open_tags.append(tag)
+        return super().start(tag, attrs)
+
+    def end(self, tag):
+        if not self._open_tags or self._open_tags[-1] != tag:
+            expected = self._open_tags[-1] if self._open_tags else None
+            raise ParseError(f"End tag </{tag}> doesn't match open element <{expected}>")
+        self._open_tags.pop()
+        return super().end(tag)
+
+    def close(self):
+        if self._open_tags:
+            raise ParseError(f"Missing end tag(s) for {self._open_tags}")
+        return super().close()
+
     def feed(self, data: str) -> None:
         """
         Iterate through all tags matched by regex.
